@@ -188,6 +188,8 @@ func recordArtifacts(paths []string, hashAlgorithms []string, gitignorePatterns 
 					if evalErr != nil {
 						return evalErr
 					}
+					// the symlink only counts as visited while we are below it
+					visitedSymlinks.Remove(path)
 					for key, value := range evalArtifacts {
 						if targetIsDir {
 							symlinkPath := filepath.Join(path, strings.TrimPrefix(key, evalSym))
